@@ -26,8 +26,31 @@ fn base_dir() -> PathBuf {
     root.join(format!("verif-c13-{}", std::process::id()))
 }
 
+const WORKER_THREAD: &str = "c13-import-worker";
+static WORKER_PANICS: std::sync::atomic::AtomicU64 = std::sync::atomic::AtomicU64::new(0);
+static WORKER_PANIC_SITES: Mutex<std::collections::BTreeMap<String, u64>> = Mutex::new(std::collections::BTreeMap::new());
+
 fn runtime() -> tokio::runtime::Runtime {
-    tokio::runtime::Builder::new_current_thread().enable_all().max_blocking_threads(4).build().expect("tokio runtime")
+    tokio::runtime::Builder::new_current_thread().enable_all().max_blocking_threads(4).thread_name(WORKER_THREAD).build().expect("tokio runtime")
+}
+
+/// `CardanoChainDataImporter::import` runs on a tokio blocking thread; a panic there (e.g. the
+/// `EntityCursor` of mithril-persistence panics on a sqlite constraint failure) is turned by tokio
+/// into the error "worker thread crashed", which the harness sees and judges. The hook keeps these
+/// panics off stderr and records where they happened instead.
+fn install_worker_panic_hook() {
+    let previous = std::panic::take_hook();
+    std::panic::set_hook(Box::new(move |info| {
+        if std::thread::current().name() == Some(WORKER_THREAD) {
+            WORKER_PANICS.fetch_add(1, std::sync::atomic::Ordering::SeqCst);
+            let loc = info.location().map(|l| format!("{}:{}", l.file(), l.line())).unwrap_or_else(|| "?".into());
+            if let Ok(mut m) = WORKER_PANIC_SITES.lock() {
+                *m.entry(loc).or_insert(0) += 1;
+            }
+        } else {
+            previous(info);
+        }
+    }));
 }
 
 /// a freshly migrated, empty database file that fresh reference databases are copied from
@@ -153,6 +176,7 @@ async fn scripted_scenarios(mon: &mut Monitor, dir: &Path, template: &Option<Pat
 fn main() {
     let args = vcore::parse_args();
     vcore::install_panic_hook();
+    install_worker_panic_hook();
     if args.prop != "C13" {
         eprintln!("mon-import: unknown property {}", args.prop);
         std::process::exit(2);
@@ -212,7 +236,7 @@ fn main() {
 
     let (shards, per, budget_s): (u64, u64, f64) = match args.tier {
         Tier::Quick => (16, 19, 100.0),
-        Tier::Thorough => (64, 190, 35.0 * 60.0),
+        Tier::Thorough => (64, 190, 28.0 * 60.0),
     };
     let start = std::time::Instant::now();
     let dir2 = dir.clone();
@@ -240,6 +264,10 @@ fn main() {
         let _ = std::fs::remove_dir_all(&sdir);
     });
     let _ = std::fs::remove_dir_all(&dir);
+    mon.extra.insert(
+        "panics_inside_import_worker_threads(site -> count)".into(),
+        json!(WORKER_PANIC_SITES.lock().map(|m| m.clone()).unwrap_or_default()),
+    );
 
     mon.finish(
         "histories = seeded random sequences of (forward batch 1-40 | roll-back to: any earlier point, shallow, origin, first stored block, before the first stored block, highest stored block +-1, a block next to a 15-block range boundary, last import target; followed by a longer / shorter / no new fork | import(target <= tip, an existing block number) through the plain importer / the legacy / the v2 signable builder, targets: tip, near tip, above the highest stored block, range boundary +-1, at or below the highest stored block | import during which the node switches fork while the streamer polls | restart (database re-opened, new importer, new chain-sync connection) | connection lost | explicit prune keeping 0-60 blocks) over a simulated node (fork tree; consecutive block numbers, or in 1/3 of the histories gaps that depend on the height only incl. whole empty ranges; sparse slots; transaction droughts; transactions of abandoned blocks re-included), started and ended by an import; plus 1 fixed probe (design probe on sqlite) and 5 scripted hand-sized histories. System under test = real CardanoChainDataImporter (+ByChunk/WithPruner decorators for the signer flavour) + real CardanoBlockScanner/ChainReaderBlockStreamer + real file-backed sqlite repository (signer / aggregator connection options) + real signable builders, fed by the chain-sync server model of reader.rs; tables read through an independent read-only sqlite connection. Oracle 1: tables == tables of a fresh importer on a fresh database importing the current canonical chain once to the same target (early-return case: unchanged + part at or below the target), and that fresh import == specification model (model.rs); after restart / prune: unchanged. Oracle 2: roots at <=9 beacons per import: stored state == fresh node at the same depth == fresh node that imported exactly to the beacon == specification model. After an oracle-1 witness the store is wiped and the history goes on. Non-trivial = an import check preceded by at least one perturbation (roll-back that touches stored blocks, restart, lost connection, prune, non-monotone target, mid-import fork switch), distinct by (configuration, event sequence so far); plus every distinct (chain prefix, import depth > beacon, beacon) triple judged by oracle 2.",
